@@ -18,7 +18,7 @@ spelling (capstone over C09, C10, C11, C12). -/
 theorem canonicalRequest_eq_ref (H : Bytes → Bytes) (opts : Options) (other : OtherCharset) (req : Request)
     (fp : FromParts) (signed : List Bytes) (h : fromRequestParts H opts other req = .ok fp) :
     refCanonicalRequest H opts other req signed = some (canonicalRequest fp.creq signed) := by
-  sorry
+  exact c02_canonicalRequest_eq_ref H opts other req fp signed h
 
 /-- Conversely a request the reference can canonicalise is canonicalised by the code, unless its
 folded URI exceeds what `http::Uri` can hold (DESIGN §8.10). -/
@@ -26,7 +26,7 @@ theorem fromRequestParts_complete (H : Bytes → Bytes) (opts : Options) (other 
     (signed : List Bytes) (creq : Bytes) (h : refCanonicalRequest H opts other req signed = some creq) :
     (∃ fp, fromRequestParts H opts other req = .ok fp) ∨
     (foldsBody opts req.headers = true ∧ fromRequestParts H opts other req = .err .MalformedQueryString) := by
-  sorry
+  exact c02_fromRequestParts_complete H opts other req signed creq h
 
 /-- Completeness: if the parameters extracted from either carrier name this server's scope and a
 timestamp inside the window, the required headers are signed, the provider hands out a key, and
@@ -43,7 +43,7 @@ theorem complete {σ : Type} (H : Bytes → Bytes) (cfg : Config) (P : Provider 
     (hcreq : refCanonicalRequest H cfg.opts cfg.other req ap.signedHeaders = some creq)
     (hsig : ap.signature = refSignature H resp.key t (fmtDate (utcDate t)) cfg.region cfg.service creq) :
     ∃ r, (validate H cfg P s req).out = .ok r := by
-  sorry
+  exact c02_complete H cfg P s req fp ap t ak creq resp hfp hap hreq ht hw hrep hcred hready hkey hcreq hsig
 
 /-- Header carrier: an Authorization header of the SigV4 shape — parameters in any order, separated
 by commas with optional spaces — delivers exactly the credential, signed-header list and
@@ -59,7 +59,7 @@ theorem header_carrier_extraction (c : CanonReq) (cred sh sig : Bytes) (ps : Lis
               | none => firstOf c.headers DATE) = some date) :
     extractAuthParams c = .ok (AuthParams.mk cred sig ((firstOf c.headers X_AMZ_SECURITY_TOKEN_LOWER).map latin1ToString)
         (sortNames (splitOn 0x3B sh)) (latin1ToString date)) := by
-  sorry
+  exact c02_header_carrier_extraction c cred sh sig ps date hq hperm hv rest hah hdate
 
 /-- Query carrier: the `X-Amz-*` parameters are used in decoded form — whatever percent-spelling
 the signer chose for an ASCII value, the extracted parameter is the value itself. -/
@@ -68,7 +68,7 @@ theorem query_carrier_decoded (q : Bytes) (m : QueryMap) (name value : Bytes) (p
     (hfirst : (pairs.find? fun kv => kv.1 = name) = some (name, value))
     (hname : pctEncodeAll name = name) (hascii : ∀ x ∈ value, x < 0x80) :
     ∃ v, firstOf m name = some v ∧ unescapeUri v = .ok value := by
-  sorry
+  exact c02_query_carrier_decoded q m name value pairs hq hp hfirst hname hascii
 
 /-- Acceptance does not depend on how the signer spelled equivalent wire encodings: two wire
 requests with the same method, the same reference path, decoded query pairs that are a
@@ -83,7 +83,7 @@ theorem spelling_independent (H : Bytes → Bytes) (opts : Options) (other : Oth
     (hh : ∀ n ∈ signed, refHeaderLine w.headers n = refHeaderLine w'.headers n)
     (hb : w.body = w'.body) :
     refCanonicalRequest H opts other w signed = refCanonicalRequest H opts other w' signed := by
-  sorry
+  exact c02_spelling_independent H opts other w w' signed ps ps' hf hf' hm hp hq hq' hperm hh hb
 
 /-- Examples of equivalent spellings the previous theorem covers: hex case, needless escapes,
 `+` versus `%20` in queries, repeated names, redundant spaces. -/
@@ -92,7 +92,7 @@ theorem spelling_examples :
     (refQueryPairs b!"a=b+c&a=%31&%61=x").map List.length = some 3 ∧
     refQueryPairs b!"k=b+c" = refQueryPairs b!"%6b=b%20c" ∧
     refHeaderValue b!"  a   b " = refHeaderValue b!"a b" := by
-  sorry
+  decide
 
 end SigV4.C02
 
